@@ -152,3 +152,85 @@ Print Assumptions C07_position_offset.
 Print Assumptions C07_bitwidth.
 Print Assumptions C07_fieldnorm.
 Print Assumptions C07_nonfreq_positions_refuted.
+
+(* ===================== theorems added after the first build (deeper proofs) ===================== *)
+From TV Require Import Postings.PositionsProofs Postings.Seek Postings.SeekProofs Postings.SeekCases.
+Local Open Scope N_scope.
+
+(* ---- positions stream: round trip for delta lists of ANY length, every window ------------------------------- *)
+Theorem C07_positions_roundtrip : forall pack unpack,
+  (forall w xs, length xs = BLOCKn -> Forall (fun x => x < 2 ^ w) xs -> unpack w (pack w xs) = xs) ->
+  (forall w xs, length xs = BLOCKn -> N.of_nat (length (pack w xs)) = block_size w) ->
+  forall ds offset len,
+  Forall (fun x => x < 2 ^ 32) ds -> N.of_nat (length ds) < 2 ^ 64 -> offset + len <= N.of_nat (length ds) ->
+  pos_read unpack (pos_serialize pack ds) offset len = ROk (firstn (N.to_nat len) (skipn (N.to_nat offset) ds)).
+Proof. exact pos_read_serialize. Qed.
+
+(* the positions of the k-th document of a term are recovered from the cumulative term frequencies, for any split
+   position_offset (SkipReader, C07_position_offset) + tfs before the cursor inside the block *)
+Theorem C07_positions_of_doc : forall pack unpack,
+  (forall w xs, length xs = BLOCKn -> Forall (fun x => x < 2 ^ w) xs -> unpack w (pack w xs) = xs) ->
+  (forall w xs, length xs = BLOCKn -> N.of_nat (length (pack w xs)) = block_size w) ->
+  forall pss k position_offset tfs_before,
+  Forall (fun ps => chain_le 0 ps /\ Forall (fun p => p < 2 ^ 32) ps) pss ->
+  sum (map tf_of pss) < 2 ^ 64 -> (k < length pss)%nat ->
+  position_offset + sum tfs_before = sum (map tf_of (firstn k pss)) ->
+  positions_of unpack (pos_serialize pack (term_deltas pss)) position_offset tfs_before (tf_of (nth k pss []))
+  = ROk (nth k pss []).
+Proof. exact positions_of_kth. Qed.
+
+(* ---- SegmentPostings cursor = list semantics ------------------------------------------------------------------ *)
+Theorem C07_seek_blocks : forall bs prog, binv bs -> Forall valid_op prog ->
+  sp_run (sp_open bs) prog = ROk (run_list (flatten bs) prog).
+Proof. exact sp_run_blocks. Qed.
+
+Theorem C07_seek : forall pack unpack,
+  (forall w xs, length xs = BLOCKn -> Forall (fun x => x < 2 ^ w) xs -> unpack w (pack w xs) = xs) ->
+  (forall w xs, length xs = BLOCKn -> N.of_nat (length (pack w xs)) = block_size w) ->
+  forall bw opt rtf req l prog,
+  wf_postings l -> Forall valid_op prog ->
+  exists bs, read_blocks unpack opt req (N.of_nat (length l)) (serialize pack bw opt rtf l) = ROk bs /\
+             sp_run (sp_open bs) prog = ROk (run_list (project (has_freq req && (has_freq opt && rtf)) l) prog).
+Proof. exact seek_list_semantics. Qed.
+
+Theorem C07_seek_terminated_sticky : forall st prog, inv st -> Forall valid_op prog -> sp_doc st = TERMINATED ->
+  exists obs, sp_run st prog = ROk obs /\ Forall (fun o => o = (TERMINATED, 0)) obs.
+Proof. exact sp_terminated_sticky. Qed.
+
+Theorem C07_seek_positions : forall pack unpack,
+  (forall w xs, length xs = BLOCKn -> Forall (fun x => x < 2 ^ w) xs -> unpack w (pack w xs) = xs) ->
+  (forall w xs, length xs = BLOCKn -> N.of_nat (length (pack w xs)) = block_size w) ->
+  forall bw opt req l pss prog,
+  wf_postings l -> has_positions opt = true -> has_freq req = true ->
+  map snd l = map tf_of pss ->
+  Forall (fun ps => chain_le 0 ps /\ Forall (fun p => p < 2 ^ 32) ps) pss ->
+  sum (map snd l) < 2 ^ 32 ->
+  Forall valid_op prog ->
+  exists bs, read_blocks unpack opt req (N.of_nat (length l)) (serialize pack bw opt true l) = ROk bs /\
+  exists st, sp_exec (sp_open bs) prog = ROk st /\
+  (sp_doc st <> TERMINATED ->
+   exists k, (k < length l)%nat /\ rem st = skipn k l /\ sp_doc st = fst (nth k l (0, 0)) /\
+             sp_positions unpack (pos_serialize pack (term_deltas pss)) st = ROk (nth k pss [])).
+Proof. exact seek_positions_roundtrip. Qed.
+
+(* block_search.rs: the transliterated 8-ary search equals its specification on every sorted 128-slot array whose
+   last slot is >= target, hence on every block the cursor searches *)
+Theorem C07_block_search : forall arr t, length arr = BLOCKn -> nondecr arr -> t <= nth (BLOCKn - 1) arr 0 ->
+  kary_search8 arr t = count_lt t arr.
+Proof. exact kary_search8_spec. Qed.
+
+Theorem C07_seek_kary : forall t st, t <= TERMINATED -> inv st -> sp_seek_kary t st = sp_seek t st.
+Proof. exact sp_seek_kary_eq. Qed.
+
+(* outside the DocSet contract (target > TERMINATED): SkipReader::seek's loop has no exit *)
+Theorem C07_seek_above_terminated_refuted : forall t st, inv st -> TERMINATED < t ->
+  sp_seek t st = RFuel /\ forall fuel, skip_loop fuel t (c_blocks st) = RFuel.
+Proof. exact sp_seek_above_terminated_never_returns. Qed.
+
+Print Assumptions C07_positions_roundtrip.
+Print Assumptions C07_seek.
+Print Assumptions C07_seek_positions.
+
+Print Assumptions C07_positions_roundtrip.
+Print Assumptions C07_positions_of_doc.
+Print Assumptions C07_seek_blocks.
